@@ -118,7 +118,7 @@ def check_mesh_topology(ctx, ds, cv, out, info, kept, supply, start_index):
             continue
         src, res = ds[name], out[name]
         ctx.check(res.dims == src.dims, f'{name} keeps its dimension order')
-        ctx.check(int(res.attrs.get('start_index', 0)) == int(src.attrs.get('start_index', 0)) == start_index, f'{name} keeps its index base')
+        ctx.check(int(res.attrs.get('start_index', 0)) == int(src.attrs.get('start_index', 0)), f'{name} keeps its index base')
         want_dtype = src.encoding.get('dtype', src.dtype)
         got_dtype = res.encoding.get('dtype', res.dtype)
         ctx.check(numpy.dtype(got_dtype).kind == 'i' and numpy.dtype(got_dtype) == numpy.dtype(want_dtype), f'{name} keeps its integer type')
